@@ -58,6 +58,8 @@ ACCEPT = {
     ("GHE", "self.bhe.b.H"): "the borehole height is the explicit input of a simulation ('simulating a given field at a given height')",
     ("BaseGHE", "self.bhe.b.H"): "same: height input",
     ("GFunction", "self.interpolation_table"): "memo built on first use from constructor data (g_lts, r_b_values, log_time) only",
+    ("GHE", "self.gFunction.interpolation_table"): "the same memo seen through the owning object (built from the g-function's own constructor data only)",
+    ("BaseGHE", "self.gFunction.interpolation_table"): "same",
     ("BaseGHE", "self.gFunction.bore_locations"): "compute_g_functions rebuilds the g-function from its own bore_locations / log_time, which it passes through unchanged",
     ("BaseGHE", "self.gFunction.log_time"): "same: passed through unchanged",
     ("GHE", "self.gFunction.bore_locations"): "same (inherited method)",
@@ -131,7 +133,14 @@ def _types_of(prog, module, v, ann):
 
 def check(prog: Program, tier: str) -> Result:
     res = Result(PROP)
-    ea = EffectAnalyzer(prog)
+    _types_memo = {}
+
+    def types_of(cls_q):
+        if cls_q not in _types_memo:
+            _types_memo[cls_q] = _attr_types(prog, cls_q)
+        return _types_memo[cls_q]
+
+    ea = EffectAnalyzer(prog, attr_types=types_of)
 
     # ---------------- R13.1
     work = []
@@ -452,6 +461,17 @@ def _check_param_mutation(prog: Program, res: Result):
                 res.violation("R13.7", f"{q}|{p}|{r[:60]}", prog.loc(fi, node), q,
                               f"{fi.name} changes its parameter {p} in place ({how}) and {q2.split('.')[-1]} passes it {r}: the stored object is altered by every call, so later results depend on how often it was called",
                               call_site=prog.loc(f2, c))
+    # the same through a local alias of stored state:  L = self.a ; L *= n  /  L.append(..)  /  L[i] = ..
+    from ..model import attr_alias_mutations
+
+    n_alias = 0
+    for q, fi in sorted(prog.funcs.items()):
+        for node, loc_, chain, how in attr_alias_mutations(fi):
+            n_alias += 1
+            res.ob("R13.7", f"{fi.name}: the stored object {chain} is not changed in place through its alias {loc_}", False, prog.loc(fi, node))
+            res.violation("R13.7", f"{q}|alias|{chain}|{loc_}", prog.loc(fi, node), q,
+                          f"{loc_} is bound to {chain} and then changed in place ({how}): the stored object itself changes, later calls (and every other object sharing it) see the changed value")
+    res.count("attr_alias_mutations", n_alias)
     res.count("param_mutation_sites", n_sites)
     res.count("param_mutation_call_sites", n_pairs)
     res.floor("param_mutation_sites", 8)
@@ -620,6 +640,11 @@ def _check_nominal_height(prog: Program, res: Result):
 
 M = "ghedesigner.manager"
 VARIANTS = [
+    Variant("caller's hourly load list tiled in place (seeded C13_d)", "break",
+            [(GHX, "                q_dot = q_dot * n_years", "                q_dot *= n_years")], "R13.7"),
+    Variant("hourly simulate no longer refreshes the short-time model (seeded C13_c)", "break",
+            [(GHX, "        self.bhe_eq = self.bhe.to_single()\n        # Update short time step object with equivalent single u-tube\n        self.radial_numerical.calc_sts_g_functions(self.bhe_eq)\n",
+              "        if method == TimestepType.HYBRID:\n            self.bhe_eq = self.bhe.to_single()\n            self.radial_numerical.calc_sts_g_functions(self.bhe_eq)\n")], "R13.1"),
     Variant("search log declared at class level and no longer created per instance (seeded C12_c)", "break",
             [("ghedesigner.search_routines", "class Bisection1D:\n", "class Bisection1D:\n    searchTracker: list = []\n\n"),
              ("ghedesigner.search_routines", "        self.searchTracker = []\n        coordinates = coordinates_domain[0]", "        coordinates = coordinates_domain[0]")], "R13.8"),
